@@ -28,6 +28,10 @@ def coqty(t):
         return "(list %s)" % coqty(t[5:])
     if t.startswith("rec:"):
         return t[4:]
+    if t.startswith("pdict:"):            # python dict keyed by position tuples: an insertion-ordered association list
+        return "(list (pos * %s))" % coqty(t[6:])
+    if t.startswith("coq:"):
+        return t[4:]
     return {"Z": "Z", "Q": "Q", "bool": "bool", "score": "score", "pos": "pos", "none": "unit", "nat": "nat"}[t]
 
 
@@ -289,6 +293,13 @@ class Tr:
                 f = keys[l.value][0]
                 return b, ("(negb (py_is_none (%s %s)))" if isinstance(op, ast.In) else "(py_is_none (%s %s))") % (f, t), "bool"
             raise Abort("`in` on a %s" % ty)
+        if isinstance(op, (ast.In, ast.NotIn)):
+            bk, tk, tyk = self.expr(l, env)
+            bd, td, tyd = self.expr(r, env)
+            if tyd.startswith("pdict:") and tyk in ("pos", "list:Z"):
+                t = "(dict_mem pos_eqb %s %s)" % (tk, td)
+                return bk + bd, (t if isinstance(op, ast.In) else "(negb %s)" % t), "bool"
+            raise Abort("`in` on a %s" % tyd)
         b1, t1, ty1 = self.unopt(*self.expr(l, env))
         b2, t2, ty2 = self.unopt(*self.expr(r, env))
         if ty1 == "score" and ty2 == "score":
@@ -324,6 +335,12 @@ class Tr:
             f, vty = keys[s.value]
             v = self.fresh()
             return b + [(v, "py_dict_get (%s %s)" % (f, t))], v, vty
+        if ty.startswith("pdict:"):
+            b2, t2, ty2 = self.expr(s, env)
+            if ty2 not in ("pos", "list:Z"):
+                raise Abort("dictionary key of type %s" % ty2)
+            v = self.fresh()
+            return b + b2 + [(v, "py_dict_get (dict_get pos_eqb %s %s)" % (t2, t))], v, ty[6:]
         if not ty.startswith("list:"):
             raise Abort("subscript of a %s" % ty)
         if isinstance(s, ast.Slice):
@@ -386,6 +403,8 @@ class Tr:
                 raise Abort("int(a / b) on %s, %s" % (ty1, ty2))
             v = self.fresh()
             return b1 + b2 + [(v, "py_int_truediv %s %s" % (t1, t2))], v, "Z"
+        if fn == "tuple" and len(e.args) == 1 and not e.keywords:
+            return self.expr(e.args[0], env)
         if fn in self.PRIMS_ALT and len(e.args) == 1:
             try:
                 _, _, ty0 = self.expr(e.args[0], dict(env))
@@ -537,7 +556,7 @@ class Tr:
             b, t, ty = self.expr(s.value, env)
             b, t = self.coerce_arg(b, t, ty, self.ret)
             return self.binds(b) + self.finish(t)
-        if isinstance(s, ast.Assign) and len(s.targets) == 1 and not isinstance(s.targets[0], ast.Tuple):
+        if isinstance(s, ast.Assign) and len(s.targets) == 1 and not isinstance(s.targets[0], (ast.Tuple, ast.Subscript)):
             tg = s.targets[0]
             b, t, ty = self.expr(s.value, env)
             if isinstance(tg, ast.Name):
@@ -594,6 +613,17 @@ class Tr:
                 b, _, _ = self.apply(self.u.methods[f.attr], c.args, env, with_self=True)
                 return self.binds(b) + nxt(env)
             raise Abort("call statement %s" % ast.unparse(c))
+        # self.<dict>[key] = value
+        if isinstance(s, ast.Assign) and len(s.targets) == 1 and isinstance(s.targets[0], ast.Subscript) \
+                and isinstance(s.targets[0].value, ast.Attribute) and ast.unparse(s.targets[0].value.value) == "self" \
+                and s.targets[0].value.attr in self.u.fields and self.u.fields[s.targets[0].value.attr][1].startswith("pdict:"):
+            fld, fty = self.u.fields[s.targets[0].value.attr]
+            bk, tk, tyk = self.expr(s.targets[0].slice, env)
+            bv, tv, tyv = self.expr(s.value, env)
+            bv, tv = self.coerce_arg(bv, tv, tyv, fty[6:])
+            if tyk not in ("pos", "list:Z"):
+                raise Abort("dictionary key of type %s" % tyk)
+            return "%slet self := self <| %s := dict_set pos_eqb %s %s (%s self) |> in %s" % (self.binds(bk + bv), fld, tk, tv, fld, nxt(env))
         # a, b = (x, y)
         if isinstance(s, ast.Assign) and len(s.targets) == 1 and isinstance(s.targets[0], ast.Tuple) and isinstance(s.value, ast.Tuple) \
                 and len(s.targets[0].elts) == len(s.value.elts) and all(isinstance(x, ast.Name) for x in s.targets[0].elts):
